@@ -1130,6 +1130,12 @@ func ruleINV8(c *Ctx) {
 		}
 	}
 	count := map[string]int{}
+	var extraWriters []string
+	defer func() {
+		if len(extraWriters) > 0 {
+			c.Notes = append(c.Notes, "INV-8 additional conservative writers (not judged): "+strings.Join(extraWriters, "; "))
+		}
+	}()
 	for _, fn := range p.ModuleFuncs() {
 		for _, b := range fn.Blocks {
 			for _, in := range b.Instrs {
@@ -1148,6 +1154,12 @@ func ruleINV8(c *Ctx) {
 				key := name + "=" + kind
 				count[key]++
 				if allowed[key][fnName(fn)] {
+					continue
+				}
+				// clearing a memo flag or un-retracting somewhere else is the conservative direction for the properties this
+				// rule serves (more re-evaluation, more active rules): recorded, not judged (INV-9 polices wholesale clearing)
+				if key == "Expression.Evaluated=false" || key == "ExpressionAtom.Evaluated=false" || key == "RuleEntry.Retracted=false" {
+					extraWriters = append(extraWriters, key+" in "+fnName(fn))
 					continue
 				}
 				c.Fail(fmt.Sprintf("%s written in %s", key, fnName(fn)), p.InstrPos(in), fmt.Sprintf("store of %s outside its owners %v", key, keysOf(allowed[key])))
